@@ -109,6 +109,33 @@ fn counter_new_is_empty() {
     core::mem::forget(w);
 }
 
+// ---- an OBSERVING waker: its data pointer is the CounterInner itself; wake() records what a task that is polled
+//      synchronously from inside wake() (a LocalSet / FuturesUnordered / block_on waker may do that) would read ----
+static mut SEEN_AT_WAKE: Option<(usize, usize)> = None;
+unsafe fn ob_clone(p: *const ()) -> RawWaker { RawWaker::new(p, &OB_VTABLE) }
+unsafe fn ob_wake(p: *const ()) { let i = &*(p as *const CounterInner); SEEN_AT_WAKE = Some((i.count.get(), i.capacity)); }
+unsafe fn ob_drop(_p: *const ()) {}
+static OB_VTABLE: RawWakerVTable = RawWakerVTable::new(ob_clone, ob_wake, ob_wake, ob_drop);
+
+/// "becomes ready, WITH a wake-up, when one ends": at the moment the registered task is woken the slot is already
+/// free (count < capacity) — a task polled from inside wake() must find the gate open, otherwise it re-registers
+/// behind a wake that has already been spent and is never woken again (lost wake-up).   [C17]
+#[kani::proof]
+fn woken_task_finds_the_gate_open() {
+    let count: usize = kani::any();
+    let capacity: usize = kani::any();
+    kani::assume(count >= 1);
+    let c = Counter(Rc::new(CounterInner { count: Cell::new(count), capacity, task: LocalWaker::new() }));
+    let w = unsafe { Waker::from_raw(RawWaker::new(Rc::as_ptr(&c.0) as *const (), &OB_VTABLE)) };
+    c.0.task.register(&w);
+    let g = CounterGuard(c.0.clone());       // a guard that is already counted in `count`
+    drop(g);
+    match unsafe { SEEN_AT_WAKE } {
+        Some((seen, cap)) => { assert!(seen < cap); assert_eq!(seen, count - 1); assert_eq!(count, capacity); }
+        None => { assert!(count != capacity); }
+    }
+}
+
 #[kani::proof]
 fn reach() {
     let (c, count, capacity, reg) = any_counter();
